@@ -520,6 +520,25 @@ func onewayFacts() {
 	defE("mcast_waitCond", cond)
 }
 
-func mgrFacts() {}
+// templateFacts: one digest per template file (all its declarations, comments dropped).
+func templateFacts() {
+	g := loadDir("cmd/protoc-gen-gorums/gengorums")
+	for _, f := range []string{"template_quorumcall.go", "template_async.go", "template_correctable.go", "template_datatypes.go",
+		"template_multicast.go", "template_unicast.go", "template_rpc.go", "template_qspec.go", "template_server.go"} {
+		name := "skel_tmplfile_" + strings.TrimSuffix(strings.TrimPrefix(f, "template_"), ".go")
+		af := g.files[f]
+		if af == nil {
+			skel(name, "<absent>")
+			continue
+		}
+		var parts []string
+		for _, d := range af.Decls {
+			parts = append(parts, g.src(d))
+		}
+		skel(name, strings.Join(parts, "\n"))
+	}
+}
+
+func mgrFacts() { templateFacts() }
 
 func genFacts() {}
